@@ -7,11 +7,12 @@
 # the patch to /repo itself as the task prescribes.
 name=$1; patch=$(readlink -f "$2"); tier=${3:-quick}; shift 3
 ids=${@:-C01 C02 C03 C04 C05 C06 C07 C08 C09 C10 C11 C12 C13 C14 C15 C16 C17 C18 C19 C20}
-S=/tmp/seedrun
+S=${SEEDRUN_DIR:-/tmp/seedrun}
+SRC=${VERIF_SRC:-/verif}
 mkdir -p $S/out
 if [ ! -d $S/repo ]; then git -C /repo worktree add --detach $S/repo HEAD >/dev/null 2>&1 || exit 9; fi
 ( cd $S/repo && git checkout -q --detach $(git -C /repo rev-parse HEAD) && git checkout -- . && git clean -fdq src tests 2>/dev/null; git apply "$patch" ) || { echo "SEEDRUN $name patch-does-not-apply"; exit 9; }
-rsync -a --delete --exclude target --exclude .git --exclude evidence/replay --exclude seeded /verif/ $S/verif/
+rsync -a --delete --exclude target --exclude .git --exclude evidence/replay --exclude seeded $SRC/ $S/verif/
 sed -i "s#\"/repo\"#\"$S/repo\"#" $S/verif/harness/Cargo.toml $S/verif/harness-digest/Cargo.toml $S/verif/fuzz/Cargo.toml
 fired=""; silent=""; other=""
 for id in $ids; do
